@@ -532,3 +532,13 @@ Proof.
   destruct i as [|[|i]]; [| |exfalso; apply (Nat.lt_irrefl 2); apply (Nat.le_lt_trans _ (S (S i))); [apply le_n_S, le_n_S, Nat.le_0_l|exact Hi]];
     cbn [nth tmain tsub tsup]; unfold Rabs; repeat destruct Rcase_abs; lra.
 Qed.
+
+(* ---- tie to the source by proof (package r2c): the functions regenerated from /repo/src on this run by the Rust-subset ->
+   Gallina translator (driver/rust2coq.py -> gen/Src*.v) are equal, for all arguments, to the hand-written model functions
+   the theorems above are about (Proofs/SrcEq*.v).  A change of a loop bound, index, operator or statement order in the
+   source breaks the corresponding src_<function> lemma and with it this obligation. *)
+From OV Require Proofs.SrcEqTridiag.
+Theorem model_is_source_C05_Tridiag : forall A : Arith, @SrcEqTridiag.model_is_source_Tridiag A.
+Proof. intros A. exact SrcEqTridiag.model_is_source_Tridiag_lemma. Qed.
+Check model_is_source_C05_Tridiag : forall A : Arith, @SrcEqTridiag.model_is_source_Tridiag A.
+Print Assumptions model_is_source_C05_Tridiag.
